@@ -96,7 +96,7 @@ def runPanoc (kv : KV) (evs : List Ev) : String :=
   let oot := kvNat kv "oot" != 0
   let errz0 := List.replicate m (-12345.0)
   let x0 := kvVec kv "x0"; let y0 := kvVec kv "y0"; let sig := kvVec kv "Sig"
-  let r := Panoc.run P (mkDirection n) d0 pr stop oot x0 y0 sig errz0 (nanV n) (0.0/0.0)
+  let r := Panoc.run P (mkDirection n) d0 pr stop oot x0 y0 sig errz0 (nanV n) (0.0/0.0) (1.0/0.0)
   let s := r.stats
   let untouched := fmtV r.x == fmtV x0 && fmtV r.y == fmtV y0
   let sLine := s!"S {statusStr s.status} {s.iterations} {fmtF s.eps} {s.lsFailures} {s.lsBacktracks} " ++
